@@ -19,7 +19,7 @@ func propC19() *Property {
 		Assumptions: []string{"BurntSushi/toml reports unknown keys through MetaData.Undecoded", "strconv.ParseUint(s, 16, 0) of two characters is 0..255 or an error"},
 		Rules: []Rule{
 			{ID: "C19.R1", Title: "strict decoding, defaults first, exit on every error", Floor: 8, Run: c19R1},
-			{ID: "C19.R2", Title: "every colour is converted by hexToAnsi with its error checked", Floor: 9, Run: c19R2},
+			{ID: "C19.R2", Title: "every colour is converted by hexToAnsi with its error checked", Floor: 7, Run: c19R2},
 			{ID: "C19.R3", Title: "every consumer assumption about a config value is validated", Floor: 15, Run: c19R3},
 		},
 	}
@@ -306,6 +306,7 @@ func c19R2(c *Ctx) {
 	// hexToAnsi
 	hname := FuncName(hex)
 	text := hex.Params[0]
+	nComponents := 0
 	eachInstr(hex, func(b *ssa.BasicBlock, _ int, in ssa.Instruction) {
 		switch x := in.(type) {
 		case *ssa.Slice:
@@ -351,10 +352,15 @@ func c19R2(c *Ctx) {
 					hi, ok2 := constInt(sl.High)
 					two = ok1 && ok2 && hi-lo == 2
 				}
+				if base == 16 && checked && isSlice && two {
+					nComponents++
+				}
 				c.check(base == 16 && checked && isSlice && two, hname+"/parse", P.InstrPos(in), hname, "two hex digits parsed (unsigned) base 16, error checked", "a colour component is not parsed as two checked unsigned base-16 digits of the text (components above 255 or signs become possible)")
 			}
 		}
 	})
+	c.check(nComponents == 3, hname+"/components", P.Pos(hex.Pos()), hname, "three colour components, each two checked unsigned base-16 digits",
+		fmt.Sprintf("hexToAnsi obtains %d of its three components from strconv.ParseUint of two digits: another parser decides what a well-formed colour is (signs, blanks or trailing text can be accepted, components can leave 0..255)", nComponents))
 	for _, b := range hex.Blocks {
 		if ret, ok := b.Instrs[len(b.Instrs)-1].(*ssa.Return); ok && !isNilConst(ret.Results[1]) {
 			s, isC := constString(ret.Results[0])
